@@ -139,33 +139,46 @@ impl<'a> Scan<'a> {
                     one.chunks_mut(wbits / 8).for_each(|w| w[0] = 1);
                     (a, one)
                 }
-                // carry chains: a + (-1), a + (-k), a + (-a), and a carry arriving at an all-ones
-                // limb of the other operand (per word; limbs of 16 / 32 / 64 bits by turns)
-                4..=9 => {
+                // carry chains: a + (-1), a + (-k), a + (-a), a carry generated below a run of
+                // "propagate" limbs (x ^ y all ones), and a carry arriving at an all-ones limb of
+                // the other operand. The pattern is laid out over groups of 1, 2 or 4 words by
+                // turns (an implementation may add several words in one wider integer), with
+                // limbs of 16 / 32 / 64 bits
+                4..=66 => {
+                    // every pattern x group width x limb size once
+                    let (pat, gsel, lsel) = (4 + (i - 4) % 7, (i - 4) / 7 % 3, (i - 4) / 21);
                     let wb = wbits / 8;
+                    let gb = (wb * [1usize, 2, 4][gsel]).min(16).min(nbytes);
                     let mut a = r.bytes(nbytes);
                     let mut b = vec![0u8; nbytes];
-                    for (x, y) in a.chunks_mut(wb).zip(b.chunks_mut(wb)) {
+                    for (x, y) in a.chunks_mut(gb).zip(b.chunks_mut(gb)) {
                         let mut xv = 0u128;
                         for (k, v) in x.iter().enumerate() {
                             xv |= (*v as u128) << (8 * k);
                         }
-                        let m = if wb == 16 { u128::MAX } else { (1u128 << (8 * wb)) - 1 };
-                        let yv: u128 = match i {
+                        let m = if gb == 16 { u128::MAX } else { (1u128 << (8 * gb)) - 1 };
+                        let lb = [16u32, 32, 64][lsel].min(4 * gb as u32);
+                        let low = (1u128 << lb) - 1;
+                        let yv: u128 = match pat {
                             4 => m,                                               // x - 1
                             5 => (r.below(1000) as u128 + 1).wrapping_neg() & m,  // x - k
                             6 => xv.wrapping_neg() & m,                           // sums to 0, carry through every bit
                             7 => (!xv).wrapping_add(1 + r.below(3) as u128) & m,
+                            8 => {
+                                // the low limb generates a carry, every limb above it propagates
+                                if xv & low == 0 {
+                                    xv |= 1;
+                                }
+                                ((!xv) & !low & m) | ((xv & low).wrapping_neg() & low)
+                            }
                             _ => {
                                 // low limb of x all ones, y = 1 plus an all-ones limb right above it
-                                let lb = [16u32, 32, 64][(i + salt as usize) % 3].min(4 * wb as u32);
-                                let low = (1u128 << lb) - 1;
                                 xv = (xv & !low) | low;
-                                let above = if 2 * lb >= 8 * wb as u32 { m & !low } else { ((1u128 << lb) - 1) << lb };
-                                if i == 8 { 1 | above } else { (r.below(1 << 15) as u128 | 1) | above }
+                                let above = if 2 * lb >= 8 * gb as u32 { m & !low } else { ((1u128 << lb) - 1) << lb };
+                                if pat == 9 { 1 | above } else { (r.below(1 << 15) as u128 | 1) | above }
                             }
                         };
-                        for k in 0..wb {
+                        for k in 0..x.len() {
                             x[k] = (xv >> (8 * k)) as u8;
                             y[k] = (yv >> (8 * k)) as u8;
                         }
@@ -176,8 +189,8 @@ impl<'a> Scan<'a> {
                     (a, b)
                 }
                 _ => {
-                    let a = operand(r, i - 6, nbytes, salt);
-                    let b = if i % 2 == 0 { operand(r, i - 5, nbytes, salt ^ 0x55) } else { r.bytes(nbytes) };
+                    let a = operand(r, i - 63, nbytes, salt);
+                    let b = if i % 2 == 0 { operand(r, i - 62, nbytes, salt ^ 0x55) } else { r.bytes(nbytes) };
                     (a, b)
                 }
             };
